@@ -487,13 +487,29 @@ def gen_patch(rng, model, params, world_labels, ids, allow_cf=True, in_data=Fals
             lines.insert(rng.randrange(k + 2, len(lines) + 1), {"raw": f".cfi_adjust_cfa_offset -{d}"})
     if params.get("patch_align_p", 0.0) and rng.random() < params["patch_align_p"] and lines:
         # an alignment requirement of the patch's own
-        lines.insert(rng.randrange(len(lines)), {"raw": f".align {rng.choice([2, 4, 8])}"})
+        lines.insert(rng.randrange(len(lines)), {"raw": f".align {rng.choice([2, 4, 8, 16])}"})
     if rng.random() < 0.15 and not in_data:
         # trailing label: forces a new block after the patch
         nm = f"{tpre}{len(own)}"
         own.append((nm, True))
         lines.append({"label": nm, "temp": True})
-    return {"lines": lines}
+    out = {"lines": lines}
+    if params.get("constraints_p", 0.0) and not in_data and rng.random() < params["constraints_p"]:
+        # the library wraps the patch in an ABI prologue / epilogue
+        regs = {"x64": ["rax", "rbx", "rcx", "rdx", "rsi", "rdi", "r8", "r9", "r10", "r11", "r12"], "ia32": ["eax", "ebx", "ecx", "edx", "esi", "edi"], "arm64": ["x0", "x1", "x2", "x9", "x10", "x16", "x19"]}[isa]
+        c = {}
+        if rng.random() < 0.5:
+            c["flags"] = True
+        if rng.random() < 0.5:
+            c["clobbers"] = sorted(rng.sample(regs, rng.randint(1, 4)))
+        if rng.random() < 0.3:
+            c["scratch"] = rng.randint(1, 2)
+        if rng.random() < 0.4:
+            c["caller_saved"] = True
+        if rng.random() < 0.25:
+            c["align_stack"] = True
+        out["constraints"] = c
+    return out
 
 
 def labels_of(model):
@@ -553,6 +569,10 @@ def patch_shape_tokens(pdesc, isa):
             toks.append(Tok("insn", "x", b=b"\0", ikind="plain"))
         else:
             toks.append(Tok("insn", "x", b=b"\0", ikind=v.kind(ln), target=ln.get("t") if not ln.get("ttemp") else None))
+    if pdesc.get("constraints"):
+        # the ABI prologue / epilogue the library wraps around the text
+        toks.insert(0, Tok("insn", "x", b=b"\0", ikind="plain"))
+        toks.append(Tok("insn", "x", b=b"\0", ikind="plain"))
     return toks
 
 
@@ -660,6 +680,9 @@ def ops_allowed(model, sd):
         if op["k"] == "delfn" and any(s2.func == op["func"] and s2.size == 0 for lst in model.span_list.values() for s2 in lst):
             return False
     for op in sd["ops"]:
+        if op["k"] == "insfn" and (op.get("patch") or {}).get("constraints"):
+            return False
+    for op in sd["ops"]:
         lines = (op.get("patch") or {}).get("lines")
         if lines is not None and not any("label" not in l and not ("raw" in l and (l["raw"].startswith(".cfi") or l["raw"].startswith(".align"))) for l in lines):
             return False  # a patch must assemble to at least one byte
@@ -706,12 +729,15 @@ def shape_ok(model, sd, params):
     m = model.clone()
     isa = params["_isa"]
 
-    def rule1(mm):
-        """nothing falls off the end of code"""
+    def rule1(mm, calls_only=False):
+        """nothing falls off the end of code (calls_only: only a call needs
+        code behind it - its return site)"""
         for sname in mm.section_order:
             seq = [t for u in mm.sections[sname] for t in u.toks if t.is_bytes() and t.origin != "pad"]
             for a, b in zip(seq, seq[1:] + [None]):
                 if a.kind == "insn" and a.ikind not in NO_FALLTHROUGH and a.ikind not in ("ret", "pad"):
+                    if calls_only and a.ikind not in ("call", "icall"):
+                        continue
                     if b is None or b.kind != "insn":
                         return False
         return True
@@ -734,7 +760,7 @@ def shape_ok(model, sd, params):
                 m.insert(key, off, patch_shape_tokens(op["patch"], isa), replace_len=length)
             # the rule must hold after every step: the engine applies the
             # modifications one after the other
-            if not rule1(m):
+            if not rule1(m, calls_only=bool(params.get("allow_fall_off"))):
                 return False
     except Exception:
         return False
@@ -828,7 +854,9 @@ def gen_scope_session(rng, model, params, index):
         if rng.random() < 0.3 and spans:
             sp = rng.choice(spans)
             toks = sorted(sp.offsets.items())
-            off, tid = rng.choice(toks)
+            # (often the block start: the place where an ENTRY registration
+            # made earlier and this insert_at meet at one offset)
+            off, tid = toks[0] if rng.random() < 0.5 else rng.choice(toks)
             ops.append({"k": "ins", "at": tid, "side": "before", "patch": gen_patch(rng, model, params, wl, ids, allow_cf=False, in_data=sp.kind == "data")})
     sd = {"ops": ops, "reg_order": list(range(len(ops)))}
     if rng.random() < 0.6:
@@ -882,6 +910,12 @@ def gen_same_patch_session(rng, model, params, index):
     rng.shuffle(places)
     for tid in places[:n]:
         ops.append({"k": "ins", "at": tid, "side": "before", "patch": copy.deepcopy(patch)})
+    if params.get("insfn_p", 0.1) and rng.random() < 0.35:
+        # ... and as the body of several inserted functions
+        for k in range(rng.randint(2, 3)):
+            body = copy.deepcopy(patch)
+            body["lines"] = [l for l in body["lines"] if not l.get("marker")] + [{"v": "ret"}]
+            ops.insert(rng.randrange(len(ops) + 1), {"k": "insfn", "name": f"nf{index}_{k}", "patch": body})
     sd = {"ops": ops, "reg_order": list(range(len(ops)))}
     r = rng.random()
     if r < 0.2 and ops:
@@ -922,6 +956,7 @@ def _gen_session(rng, model, params, index):
             if wl["entries"] and rng.random() < 0.4:
                 body["lines"].append({"v": "call", "t": rng.choice(wl["entries"])})
             body["lines"].append({"v": "ret"})
+            body.pop("constraints", None)  # function patches take none
             ops.append({"k": "insfn", "name": nm, "patch": body})
             wl["entries"] = wl["entries"] + [nm]
     nspans = min(len(spans), rng.choices([1, 2, 3, 4, 6], weights=[30, 30, 20, 10, 10])[0])
